@@ -131,6 +131,24 @@ def expectedCols (val : Bytes → Int → M GoVal) : List Col → List (Option D
 def rowView (val : Bytes → Int → M GoVal) (cols : List Col) (r : RowV) : M (List (Bytes × GoVal)) :=
   expectedCols val cols r.vals r.natts
 
+/-- typalign in bytes (c 1, s 2, i 4, d 8) of PostgreSQL's built-in types (pg_type.dat, PostgreSQL 12–16) for the
+type oids a reader may have to align without catalog help.  An array type is 'd' aligned iff its element type
+is; a range type iff its subtype is; path and polygon hold float8 points and are 'd' aligned. -/
+def pgTypAlign : List (Nat × Nat) :=
+  [(16, 1), (17, 4), (18, 1), (19, 1), (20, 8), (21, 2), (23, 4), (25, 4), (26, 4), (27, 2), (28, 4), (29, 4),
+   (114, 4), (142, 4), (600, 8), (601, 8), (602, 8), (603, 8), (604, 8), (628, 8), (650, 4), (700, 4), (701, 8),
+   (718, 8), (774, 4), (790, 8), (829, 4), (869, 4), (1042, 4), (1043, 4), (1082, 4), (1083, 8), (1114, 8),
+   (1184, 8), (1186, 8), (1266, 8), (1560, 4), (1562, 4), (1700, 4), (2950, 1), (3220, 8), (3614, 4), (3615, 4),
+   (3802, 4), (3904, 4), (3906, 4), (3908, 8), (3910, 8), (3912, 4), (3926, 8), (4072, 4),
+   -- arrays of 'd' aligned element types
+   (629, 8), (719, 8), (791, 8), (1016, 8), (1017, 8), (1018, 8), (1019, 8), (1020, 8), (1022, 8), (1027, 8),
+   (1115, 8), (1183, 8), (1185, 8), (1187, 8), (1270, 8), (3221, 8), (3909, 8), (3911, 8), (3927, 8),
+   -- arrays of other element types
+   (1000, 4), (1001, 4), (1002, 4), (1003, 4), (1005, 4), (1006, 4), (1007, 4), (1008, 4), (1009, 4), (1010, 4),
+   (1011, 4), (1012, 4), (1014, 4), (1015, 4), (1021, 4), (1028, 4), (1040, 4), (1041, 4), (1182, 4), (1231, 4),
+   (1561, 4), (1563, 4), (2951, 4), (3643, 4), (3645, 4), (3807, 4), (4073, 4), (651, 4), (775, 4), (3905, 4),
+   (3907, 4), (3913, 4)]
+
 /-! ### pg_authid (PostgreSQL 12+: oid is an ordinary first column) -/
 
 structure Role where
